@@ -4,7 +4,7 @@ use crate::ctx::{finish, guard, Ctx, Ev, Spec};
 use crate::gen::{self, Case, Kv};
 use crate::json::J;
 use crate::refdec;
-use crate::sinks::{Outcome, Policy, Sink};
+use crate::sinks::{Fault, Outcome, Policy, Sink};
 use fst::raw::{Builder, Fst};
 use fst::{MapBuilder, SetBuilder};
 use std::io::{BufWriter, Cursor, Write};
@@ -131,6 +131,57 @@ fn run_policy(case: &Case, reference: &[u8], pol: Policy, fe: usize, ev: &mut Ev
     }
 }
 
+/// "bytes_written() ALWAYS equals the number of bytes the sink has accepted so far" - also right after a call that failed because
+/// the device filled up in the middle of a logical write (the accepted prefix of that write counts). One session = one build on a
+/// sink with room for `total` bytes; the comparison is made after the header, after every successful insert and after the failing one.
+fn capacity_session(case: &Case, total: usize, chunk: usize, fault: Fault, fe: usize, reflen: usize, ev: &mut Ev) {
+    let pol = Policy::Capacity { total, chunk, fault };
+    let sink = Sink::new(pol.clone());
+    ev.eval(None);
+    ev.count("capacity-sessions");
+    macro_rules! session {
+        ($new:expr, $ins:expr) => {{
+            match $new {
+                Err(_) => Ok("failed-in-new"),
+                Ok(mut b) => {
+                    let mut res = Ok("completed-inserts");
+                    if b.bytes_written() != sink.accepted() as u64 {
+                        res = Err(format!("bytes_written() = {} but the sink has accepted {} bytes (after new)", b.bytes_written(), sink.accepted()));
+                    }
+                    for (i, (k, v)) in case.kv.iter().enumerate() {
+                        if res.is_err() {
+                            break;
+                        }
+                        let r = $ins(&mut b, k, *v);
+                        if b.bytes_written() != sink.accepted() as u64 {
+                            res = Err(format!("bytes_written() = {} but the sink has accepted {} bytes (after insert #{} which {})", b.bytes_written(), sink.accepted(), i, if r { "succeeded" } else { "failed because the sink is full" }));
+                        }
+                        if !r {
+                            if res.is_ok() {
+                                res = Ok("failed-in-insert");
+                            }
+                            break;
+                        }
+                    }
+                    res
+                }
+            }
+        }};
+    }
+    let is_set = case.kv.iter().all(|(_, v)| *v == 0);
+    let r: Result<Result<&str, String>, String> = guard(|| match (fe % 3, is_set) {
+        (1, _) => session!(MapBuilder::new(sink.clone()), |b: &mut MapBuilder<Sink>, k: &Vec<u8>, v: u64| b.insert(k, v).is_ok()),
+        (2, true) => session!(SetBuilder::new(sink.clone()), |b: &mut SetBuilder<Sink>, k: &Vec<u8>, _v: u64| b.insert(k).is_ok()),
+        _ => session!(Builder::new(sink.clone()), |b: &mut Builder<Sink>, k: &Vec<u8>, v: u64| b.insert(k, v).is_ok()),
+    });
+    let descr = || J::obj(vec![("case", case.describe()), ("policy", J::s(format!("{:?}", pol))), ("front_end", J::U(fe as u64 % 3)), ("in_memory_len", J::U(reflen as u64))]);
+    match r {
+        Err(p) => ev.violate("sink-panic", format!("build on sink {:?} panicked: {}", pol, p), descr()),
+        Ok(Err(e)) => ev.violate("bytes-written", format!("policy {:?}: {}", pol, e), descr()),
+        Ok(Ok(what)) => ev.count(&format!("capacity-sessions:{}", what)),
+    }
+}
+
 fn containers(case: &Case, reference: &[u8], ev: &mut Ev, tmp: &std::path::Path) {
     let kv = &case.kv;
     let fe = case.index;
@@ -249,6 +300,16 @@ pub fn run(ctx: &Ctx) -> i32 {
             ev.count("container:reentrant-sink");
             // a moderate run of consecutive Interrupted in-process (the long storms run in a child process, see below)
             run_policy(case, &reference, Policy::InterruptStorm { at: ci % (w.max(1)), n: 300, cap: 2 + ci % 5 }, fe + 1, ev);
+            // a device that fills up after `total` bytes: bytes_written() is compared with the sink also after the failing call
+            let rl = reference.len();
+            let cstep = (rl / ctx.tier.pick(40, 400)).max(1);
+            let mut total = (ci + ctx.seed as usize) % cstep;
+            while total <= rl + 1 {
+                let fault = if (total + ci) % 2 == 0 { Fault::Err(std::io::ErrorKind::Other) } else { Fault::Zero };
+                let chunk = [usize::MAX, 3, 1, 64][(total / cstep + ci) % 4];
+                capacity_session(case, total, chunk, fault, fe + total, rl, ev);
+                total += cstep;
+            }
             containers(case, &reference, ev, &tmp);
             ev.distinct_extra += ev.evaluations - before;
             ev.fps.insert(case.fp());
@@ -305,9 +366,9 @@ pub fn run(ctx: &Ctx) -> i32 {
         ev,
         Spec {
             level: "fault_enumeration",
-            rule: "one evaluation = one complete build of one key sequence on one instrumented sink schedule; after the header and after EVERY insert bytes_written() is compared with the bytes the sink has accepted, and at the end the sink bytes are compared with the in-memory build, reopened, verify()'d, CRC-checked by the bit-wise reference and read back; schedules per FST: caps 1..16, a single one-byte accept at every write-call position p (quick: <=150 evenly spaced positions when there are more), Interrupted at every position p, every 2nd/3rd call, every 5th position at once, acceptance scripts, seeded random lengths+interrupts, a sink that drives another fst builder inside every write call, runs of 300 consecutive Interrupted in-process and of 10^5 and 3*10^6 in a child process (death by signal = violation), prefilled Vec/Cursor, BufWriter(1|7|8192), BufWriter over a short-accepting sink, Cursor, File; FSTs: fan-out palette (incl. >32 transitions, so a 256-byte index write exists), single bytes, random maps, exhaustive-family samples, two corpora; non-trivial = every schedule; distinct = (FST, schedule), distinct by construction",
+            rule: "one evaluation = one complete build of one key sequence on one instrumented sink schedule; after the header and after EVERY insert (also the insert that fails when a capacity-limited sink fills up in the middle of a logical write) bytes_written() is compared with the bytes the sink has accepted, and at the end the sink bytes are compared with the in-memory build, reopened, verify()'d, CRC-checked by the bit-wise reference and read back; schedules per FST: caps 1..16, a single one-byte accept at every write-call position p (quick: <=150 evenly spaced positions when there are more), Interrupted at every position p, every 2nd/3rd call, every 5th position at once, acceptance scripts, seeded random lengths+interrupts, a sink that drives another fst builder inside every write call, runs of 300 consecutive Interrupted in-process and of 10^5 and 3*10^6 in a child process (death by signal = violation), prefilled Vec/Cursor, BufWriter(1|7|8192), BufWriter over a short-accepting sink, Cursor, File; FSTs: fan-out palette (incl. >32 transitions, so a 256-byte index write exists), single bytes, random maps, exhaustive-family samples, two corpora; non-trivial = every schedule; distinct = (FST, schedule), distinct by construction",
             assumptions: vec!["the sink follows the io::Write contract (accepts 1..=len bytes or returns an error)".into()],
-            floors: vec![("log:short-accepts", 10_000), ("log:interrupted", 10_000), ("container:file", 5), ("container:prefilled-vec", 50), ("max:largest-single-write", 256), ("container:reentrant-sink", 50), ("interrupt-storm-children-ok", 2)],
+            floors: vec![("log:short-accepts", 10_000), ("log:interrupted", 10_000), ("container:file", 5), ("container:prefilled-vec", 50), ("max:largest-single-write", 256), ("container:reentrant-sink", 50), ("interrupt-storm-children-ok", 2), ("capacity-sessions:failed-in-insert", 1000)],
             exhaustive: Some(!ctx.quick()),
         },
     )
